@@ -45,6 +45,19 @@ CHECKS = {
         'enumerated exhaustively. Exploration, not proof.',
         'Index convention of payloads is only pinned for single-kind list events; freshness not asserted after notify-off calls; events of failing calls unconstrained.',
         'DESIGN.md section 3 C09'),
+    'C17': (
+        'model-based PBT: generated well-nested scope programs on 1-3 real threads under a harness-owned deterministic schedule; '
+        'reference interpreter of the documented nesting rules; exhaustive nestings of the flag scopes',
+        'Programs of enter/exit events over 20 scope managers (7 flag scopes, contextual_override with cascade, str/repr_format, '
+        'view_options, coding.context, coding.permission incl. the empty permission, detour, apply_wrappers, dynamic_evaluate per '
+        'thread / process-wide with exit_fn, load_types_for_deserialization, timeit) with exceptions raised at generated points and '
+        'caught 0-2 levels further out; 2-3 threads are interleaved at event granularity by a generated schedule. After every event '
+        'the probe vector of the executing thread (public getters, str()/repr() of a Formattable, object creation under detour, '
+        'TimeIt.status) must equal the reference interpreter, and after every block exit it must equal the vector recorded before '
+        'entering (independent of the reference). All nestings of depth <=3 of the flag scopes (6174 programs) and all ordered pairs '
+        'of managers with canonical arguments x exit modes are enumerated in every run. Exploration, not proof.',
+        'Process-wide managers only in single-thread programs; interleaving only at harness yield points (the managers hold no locks and do not block).',
+        'DESIGN.md section 3 C17'),
     'C18': (
         'differential PBT against the interpreter: generated signatures materialised with exec, generated binding/call patterns; '
         'exhaustive product of small signature shapes x canonical patterns',
